@@ -478,7 +478,9 @@ PROPS = {
     "C17": {"tags": ALL, "ppref": ("C17",), "batches": [
         B("c17", 800, 4800, step=True, kinds_wanted=[7, 15, 9])]},
     "C18": {"tags": SCREEN + [7], "ppref": ("C18",), "batches": [
-        B("c18", 400, 2400, step=True, kinds_wanted=[11]), B("c18", 150, 900)]},
+        B("c18", 400, 2400, step=True, kinds_wanted=[11]), B("c18", 150, 900),
+        # grapheme mode: the new right edge falls at, next to or through clusters of several code points
+        B("c18g", 200, 1200, step=True, kinds_wanted=[11], modes="1", tags=SCREEN + [7, 10])]},
     "C19": {"tags": [4, 5], "ppref": ("C19",), "batches": [B("c19", 800, 4800)]},
     "C20": {"tags": SCREEN, "ppref": ("C20",), "batches": [B("mixed", 800, 4800), B("stepall", 400, 2400, step=True),
                                                             B("gclusters", 150, 900, modes="1")],
